@@ -417,3 +417,74 @@ def h_client_find_slots(ca, cb, ncr, n, co):
     gives back exactly what it had collected, on the node it came from"""
     import harness.c02 as c02
     c02.h_client_find_slots(ca, cb, ncr, n, co, 0, bfull=False)
+
+
+# ------------------------------------------------------------------------------
+# the JSRUN flavour of the continuous scheduler: ranks are grouped into resource
+# sets which share whole GPUs; no GPU carries more than one full share
+#
+import radical.pilot.agent.scheduler.continuous_jsrun as m_jsrun     # noqa: E402
+
+JS_GPR = [0.25, 0.3, 0.4, 0.5, 0.75, 1.0, 2.0]
+m_jsrun.pprint = S._NoPprint
+
+
+@obligation(params={'ranks': (1, 6), 'gi': (0, 6), 'gbusy': (0, 7),
+                    'cbusy': (0, 3)},
+            partition={'quick': ('gi', 7), 'thorough': ('gi', 7)},
+            timeout={'quick': 300, 'thorough': 600},
+            funcs=['radical/pilot/agent/scheduler/continuous_jsrun.py:'
+                   'ContinuousJsrun.schedule_task',
+                   'radical/pilot/agent/scheduler/continuous_jsrun.py:'
+                   'ContinuousJsrun._find_resources'],
+            bounds='ContinuousJsrun: 2 nodes x 6 cores x 3 GPUs; on node 0 any '
+                   'subset of the GPUs and the first 0..3 cores are BUSY; '
+                   'request 1..6 ranks x 1 core with GPU amount per rank from '
+                   '{.25,.3,.4,.5,.75,1,2}')
+def h_jsrun_gpu_shares(ranks, gi, gbusy, cbusy):
+    """JSRUN resource sets: only free cells, no GPU beyond one full share"""
+    ranks, gi = conc(ranks, 1, 6), conc(gi, 0, 6)
+    gbusy, cbusy = conc(gbusy, 0, 7), conc(cbusy, 0, 3)
+    gpr = JS_GPR[gi]
+    c0 = [BUSY if i < cbusy else FREE for i in range(6)]
+    g0 = [BUSY if (gbusy >> i) & 1 else FREE for i in range(3)]
+    nodes = S.mk_nodes([c0, [FREE] * 6], [g0, [FREE] * 3], 0, 0)
+    pre   = S.snapshot(nodes)
+    sched = S.mk_sched(nodes, 6, 3, cls=m_jsrun.ContinuousJsrun)
+    task  = S.mk_task('t0', ranks=ranks, cpr=1, gpr=gpr)
+    try:
+        res = sched.schedule_task(task)
+    except (AssertionError, ValueError, RuntimeError) as e:
+        trace('refused', repr(e))
+        return
+    slots = res[0] if isinstance(res, tuple) else res
+    if not slots:
+        return
+    reach()
+    trace('ranks', ranks, 'gpus/rank', gpr, 'slots', slots)
+    load, cores_seen, owner = {}, set(), {}
+    nrank = 0
+    for si, sl in enumerate(slots):
+        ni = sl['node_index']
+        for rc in sl['cores']:
+            nrank += 1
+            for c in rc:
+                check((ni, c) not in cores_seen, 'core %s:%s granted twice',
+                      ni, c)
+                cores_seen.add((ni, c))
+                check(pre[ni]['cores'][c] == FREE, 'core %s:%s was not free',
+                      ni, c)
+        for rg in sl['gpus']:
+            for g in rg:
+                check(pre[ni]['gpus'][g] == FREE, 'gpu %s:%s was not free',
+                      ni, g)
+                check(owner.setdefault((ni, g), si) == si, 'gpu %s:%s is in '
+                      'two resource sets', ni, g)
+                load[(ni, g)] = load.get((ni, g), 0.0) + gpr / len(rg)
+    check(nrank == ranks, '%s ranks placed, %s requested', nrank, ranks)
+    for (ni, g), l in load.items():
+        check(l <= 1.0 + 1e-9, 'gpu %s:%s carries %.2f shares (%s ranks x %s '
+              'gpus): %s', ni, g, l, ranks, gpr, slots)
+    total = len(load)
+    check(total + 1e-9 >= ranks * gpr, '%s whole GPUs granted for %s ranks x '
+          '%s gpus', total, ranks, gpr)
